@@ -396,6 +396,7 @@ def calculateK (G : Grammar) (fuel : Nat) (maxK : Nat) : Option Nat :=
 inductive TuplesRes
   | ok (m : List (Nat × TSet))
   | err (A : Nat) (e : DecRes)
+  deriving Repr, DecidableEq
 
 /-- `calculate_k_tuples`: non-terminals in alphabetical order, stop at the first failing one
     (`try_fold`); per production the lookahead set at the decided k. The map is keyed by production
@@ -430,12 +431,36 @@ def explainConflicts (G : Grammar) (fuel : Nat) (A k : Nat) : Option (List (Nat 
   | ps => (laSets G fuel A k).map fun sets =>
       explainLoop sets (ps.flatMap fun i => ps.map fun j => (i, j)) []
 
-/-! ## grammar class predicates (executable; used by generators' filters and the oracle's report) -/
+/-! ## reference decision (oracle for C05): strong-LL(k) evaluated on the reference sets -/
 
-/-- strong-LL(k) test on given FIRST/FOLLOW environments with the textbook ⊕ₖ -/
-def strongLLRef (G : Grammar) (k : Nat) (fe fo : Nat → TSet) (A : Nat) : Bool :=
-  let sets := (prodIdxs G A).map fun pi =>
+/-- lookahead sets of the productions of `A` with the textbook ⊕ₖ over given FIRST/FOLLOW environments -/
+def laSetsRef (G : Grammar) (k : Nat) (fe fo : Nat → TSet) (A : Nat) : List (Nat × TSet) :=
+  (prodIdxs G A).map fun pi =>
     (pi, kcatSetRef k (firstSeqRef k fe ((G.prods[pi]?.map (·.rhs)).getD [])) (fo A))
-  pairwiseDisjoint sets
+
+/-- strong-LL(k) test on given FIRST/FOLLOW environments -/
+def strongLLRef (G : Grammar) (k : Nat) (fe fo : Nat → TSet) (A : Nat) : Bool :=
+  pairwiseDisjoint (laSetsRef G k fe fo A)
+
+/-- strong-LL(k) of `A` decided with the reference least fixpoints; `none` = fuel exhausted -/
+def strongLLk (G : Grammar) (fuel : Nat) (k A : Nat) : Option Bool :=
+  (firstK_lfp G k fuel).bind fun fe =>
+    (followK_lfp G k fuel).map fun fo => strongLLRef G k (envGet fe) (envGet fo) A
+
+/-- smallest k in cur..cur+n-1 at which `A` is strong-LL(k) -/
+def specLoop (G : Grammar) (fuel : Nat) (A : Nat) : Nat → Nat → DecRes
+  | 0, _ => .errMaxK
+  | n+1, cur =>
+    match strongLLk G fuel cur A with
+    | none => .fuel
+    | some true => .ok cur
+    | some false => specLoop G fuel A n (cur+1)
+
+/-- what `decidable` must answer according to the property -/
+def decidableSpec (G : Grammar) (fuel : Nat) (A maxK : Nat) : DecRes :=
+  match prodIdxs G A with
+  | [] => .errNotPart
+  | [_] => .ok 0
+  | _ => specLoop G fuel A maxK 1
 
 end ParolModel.KS
